@@ -91,3 +91,126 @@ fn k20_refusals() {
     let fan = Multipatch::new(Patch::TriangleFan(vec![PointZ::new(0.0, 0.0, 0.0, NO_DATA)]));
     assert!(geo_types::MultiPolygon::<f64>::try_from(fan).is_err());
 }
+
+// ---- collection conversions: BOUNDED (small concrete structures, a few symbolic coordinates) ----
+
+fn c(x: f64, y: f64) -> geo_types::Coord<f64> {
+    geo_types::Coord { x, y }
+}
+
+/// multipoint -> MultiPoint keeps order and count (2 points, symbolic coordinates)
+#[kani::proof]
+#[kani::unwind(4)]
+fn k20_multipoint_to_geo() {
+    let a = Point::new(f64::from_bits(kani::any()), 2.0);
+    let b = Point::new(3.0, f64::from_bits(kani::any()));
+    let mp = Multipoint::new(vec![a, b]);
+    let g: geo_types::MultiPoint<f64> = mp.into();
+    assert!(g.0.len() == 2);
+    assert!(g.0[0].x().to_bits() == a.x.to_bits() && g.0[0].y() == 2.0 && g.0[1].x() == 3.0 && g.0[1].y().to_bits() == b.y.to_bits());
+}
+
+/// MultiPoint -> multipoint
+#[kani::proof]
+#[kani::unwind(4)]
+fn k20_multipoint_from_geo() {
+    let g = geo_types::MultiPoint::<f64>(vec![geo_types::Point::new(1.0, 2.0), geo_types::Point::new(3.0, 4.0)]);
+    let mp: Multipoint = g.into();
+    assert!(mp.points().len() == 2 && mp.points()[0].x == 1.0 && mp.points()[1].y == 4.0);
+}
+
+/// polyline with two parts -> MultiLineString: grouping and order kept
+#[kani::proof]
+#[kani::unwind(5)]
+fn k20_polyline_to_geo() {
+    let v: f64 = f64::from_bits(kani::any());
+    let pl = Polyline::with_parts(vec![
+        vec![Point::new(1.0, 2.0), Point::new(3.0, v)],
+        vec![Point::new(5.0, 6.0), Point::new(7.0, 8.0), Point::new(9.0, 10.0)],
+    ]);
+    let ml: geo_types::MultiLineString<f64> = pl.into();
+    assert!(ml.0.len() == 2 && ml.0[0].0.len() == 2 && ml.0[1].0.len() == 3);
+    assert!(ml.0[1].0[2] == c(9.0, 10.0) && ml.0[0].0[0] == c(1.0, 2.0) && ml.0[0].0[1].y.to_bits() == v.to_bits());
+}
+
+/// MultiLineString -> polyline
+#[kani::proof]
+#[kani::unwind(5)]
+fn k20_polyline_from_geo() {
+    let ml = geo_types::MultiLineString::<f64>(vec![
+        geo_types::LineString(vec![c(1.0, 2.0), c(3.0, 4.0)]),
+        geo_types::LineString(vec![c(5.0, 6.0), c(7.0, 8.0), c(9.0, 10.0)]),
+    ]);
+    let pl: Polyline = ml.into();
+    assert!(pl.parts().len() == 2 && pl.parts()[0].len() == 2 && pl.parts()[1].len() == 3);
+    assert!(pl.parts()[1][2].x == 9.0 && pl.parts()[0][1].y == 4.0);
+}
+
+/// polygon [Outer A, Inner a, Outer B] -> MultiPolygon [(A,[a]), (B,[])]
+#[kani::proof]
+#[kani::unwind(6)]
+fn k20_polygon_nesting_to_geo() {
+    let a = vec![Point::new(0.0, 0.0), Point::new(0.0, 9.0), Point::new(9.0, 9.0), Point::new(0.0, 0.0)]; // clockwise
+    let h = vec![Point::new(1.0, 2.0), Point::new(3.0, 4.0), Point::new(1.0, 5.0), Point::new(1.0, 2.0)]; // counter-clockwise
+    let b = vec![Point::new(20.0, 20.0), Point::new(20.0, 29.0), Point::new(29.0, 29.0), Point::new(20.0, 20.0)];
+    let poly = Polygon::with_rings(vec![PolygonRing::Outer(a), PolygonRing::Inner(h), PolygonRing::Outer(b)]);
+    let mp: geo_types::MultiPolygon<f64> = poly.into();
+    assert!(mp.0.len() == 2);
+    assert!(mp.0[0].interiors().len() == 1 && mp.0[1].interiors().len() == 0);
+    assert!(mp.0[0].exterior().0.len() == 4 && mp.0[0].exterior().0[1] == c(0.0, 9.0));
+    assert!(mp.0[0].interiors()[0].0[1] == c(3.0, 4.0));
+    assert!(mp.0[1].exterior().0[2] == c(29.0, 29.0));
+}
+
+/// geo Line and LineString -> polyline with one part
+#[kani::proof]
+#[kani::unwind(5)]
+fn k20_line_to_polyline() {
+    let l = geo_types::Line::new(c(1.0, 2.0), c(3.0, 4.0));
+    let pl: Polyline = l.into();
+    assert!(pl.parts().len() == 1 && pl.parts()[0].len() == 2 && pl.parts()[0][0].x == 1.0 && pl.parts()[0][1].y == 4.0);
+    let ls = geo_types::LineString(vec![c(5.0, 6.0), c(7.0, 8.0), c(9.0, 10.0)]);
+    let pl: Polyline = ls.into();
+    assert!(pl.parts().len() == 1 && pl.parts()[0].len() == 3 && pl.parts()[0][2].x == 9.0);
+}
+
+/// ring-only multipatch [OuterRing A, InnerRing a, FirstRing B, Ring b] -> MultiPolygon [(A,[a]), (B,[b])]
+#[kani::proof]
+#[kani::unwind(6)]
+fn k20_multipatch_rings_to_geo() {
+    let z = |x: f64, y: f64| PointZ::new(x, y, 1.0, NO_DATA);
+    let mp = Multipatch::with_parts(vec![
+        Patch::OuterRing(vec![z(0.0, 0.0), z(0.0, 9.0), z(9.0, 9.0), z(0.0, 0.0)]),
+        Patch::InnerRing(vec![z(1.0, 2.0), z(3.0, 4.0), z(1.0, 5.0), z(1.0, 2.0)]),
+        Patch::FirstRing(vec![z(20.0, 20.0), z(20.0, 29.0), z(29.0, 29.0), z(20.0, 20.0)]),
+        Patch::Ring(vec![z(21.0, 22.0), z(23.0, 24.0), z(21.0, 25.0), z(21.0, 22.0)]),
+    ]);
+    let r: Result<geo_types::MultiPolygon<f64>, _> = TryFrom::try_from(mp);
+    assert!(r.is_ok());
+    let g = r.unwrap();
+    assert!(g.0.len() == 2 && g.0[0].interiors().len() == 1 && g.0[1].interiors().len() == 1);
+    assert!(g.0[0].exterior().0[1] == c(0.0, 9.0) && g.0[0].interiors()[0].0[1] == c(3.0, 4.0));
+    assert!(g.0[1].exterior().0[2] == c(29.0, 29.0) && g.0[1].interiors()[0].0[1] == c(23.0, 24.0));
+}
+
+/// measured / Z polylines keep their X/Y pairs
+#[kani::proof]
+#[kani::unwind(5)]
+fn k20_polylinez_to_geo() {
+    let pl = PolylineZ::with_parts(vec![vec![PointZ::new(1.0, 2.0, 7.0, 8.0), PointZ::new(3.0, 4.0, 9.0, NO_DATA)], vec![PointZ::new(5.0, 6.0, 1.0, 2.0), PointZ::new(7.0, 8.0, 3.0, 4.0)]]);
+    let ml: geo_types::MultiLineString<f64> = pl.into();
+    assert!(ml.0.len() == 2 && ml.0[0].0.len() == 2 && ml.0[1].0.len() == 2 && ml.0[0].0[1] == c(3.0, 4.0) && ml.0[1].0[0] == c(5.0, 6.0));
+}
+
+/// geo Polygon (exterior + one hole) -> polygon rings [Outer, Inner]
+#[kani::proof]
+#[kani::unwind(6)]
+fn k20_polygon_from_geo_single() {
+    let a = geo_types::LineString(vec![c(0.0, 0.0), c(0.0, 9.0), c(9.0, 9.0), c(0.0, 0.0)]);
+    let h = geo_types::LineString(vec![c(1.0, 2.0), c(3.0, 4.0), c(1.0, 5.0), c(1.0, 2.0)]);
+    let poly: Polygon = geo_types::Polygon::new(a, vec![h]).into();
+    assert!(poly.rings().len() == 2);
+    assert!(matches!(poly.rings()[0], PolygonRing::Outer(_)) && matches!(poly.rings()[1], PolygonRing::Inner(_)));
+    assert!(poly.rings()[0].points().len() == 4 && poly.rings()[1].points().len() == 4);
+    assert!(poly.rings()[0].points()[1].y == 9.0 && poly.rings()[1].points()[1].x == 3.0);
+}
